@@ -1,5 +1,6 @@
 import StamModel.Store
 import StamModel.Driver.Off
+import StamModel.Driver.Txt
 open Stam
 namespace Driver
 
@@ -135,6 +136,19 @@ def stStep (s : State) (args : List String) : State × String :=
   | ["rmkey", set, k, strict] => let (r, s') := s.rmKey set k (strict = "1"); (s', showResp r)
   | ["rmres", r] => let (x, s') := s.rmRes r; (s', showResp x)
   | ["rmset", x] => let (r, s') := s.rmSet x; (s', showResp r)
+  | ["resolve", kind, hexid] =>
+    match unhex hexid with
+    | none => (s, "bad-op")
+    | some cs =>
+      let id := String.ofList cs
+      let r : Option Nat := match kind with
+        | "ann" => s.lookupAnn id
+        | "res" => s.lookupRes id
+        | "set" => s.lookupSet id
+        | _ => none
+      (s, match r with | some h => s!"h{h}" | none => "none")
+  | ["stripann"] => (s.stripAnn, "ok -")
+  | ["stripdata"] => (s.stripData, "ok -")
   | ["obs"] => (s, observe s)
   | _ => (s, "bad-op")
 
